@@ -32,7 +32,18 @@ def make_specs():
         out += c10.type_specs(PROP)
     except Exception:
         pass
+    # 'the entry's exact name': the native path handed to the emitter is the current path of the record's descriptor + the
+    # record's name - the inotify layer's bookkeeping (C02's contracts) re-verified here
+    from specs import c02
+    for sp in c02.make_specs():
+        sp.prop = PROP
+        out.append(sp)
     return out
+
+
+def lemmas():
+    from specs.inotify_read import string_lemmas
+    return string_lemmas()
 
 
 EXPECTED_CLAUSES = ["queue_events.post[types:pair:IN_MOVED_FROM+IN_MOVED_TO|ISDIR,recursive:synthetic sub-events: every non-empty path has the type", "queue_events.post[types:single:IN_MODIFY:event0: every non-empty path has the type", "queue_events.post[types:single:IN_CREATE:fsencode(event0.src_path) is the native path]",
